@@ -17,7 +17,7 @@ LEVEL_NOTE = ("In-process stack only (IdleReleaseDecorator + PersistenceDecorato
 DESIGN_REF = "§5 C36"
 RULE = "case = (program, idle_timeout, send schedule, store); distinct = hash of the scenario; non-trivial = a release happened and a later send reloaded the run"
 REQUIRED_REACH = ["scenario", "released_checked", "not_released_early_checked", "send_before_release_kept_in_memory", "reload_after_release", "finished_after_reload",
-                  "store_sqlite", "store_memory"]
+                  "store_sqlite", "store_memory", "slow_store"]
 ASSUMPTIONS = ["DBOS half of the property not decided (see level_note)"]
 
 
@@ -34,14 +34,15 @@ def gen_case(seed):
     spec, keys = ic.gen_program(rnd)
     spec["sched_seed"] = seed
     return {"seed": seed, "spec": spec, "keys": keys, "I": rnd.choice([0.5, 1, 2, 5]), "mode": rnd.choice(["after", "after", "before_one", "before_one"]),
-            "gap": rnd.choice([0.25, 1, 3]), "store": rnd.choice(["sqlite", "memory"]), "delta": rnd.choice([0.1, 0.25])}
+            "gap": rnd.choice([0.25, 1, 3]), "store": rnd.choice(["sqlite", "memory"]), "delta": rnd.choice([0.1, 0.25]),
+            "store_latency": rnd.choice([None, None, 0.01, 0.04])}
 
 
 def run_one(case, acc):
     from vf import idle_cases as ic
 
     wit = {"case": case}
-    t_idle = ic.idle_instant(case["spec"])
+    t_idle = ic.idle_instant(case["spec"], case.get("store_latency"))
     if t_idle is None:
         acc.inconclusive.append(f"reference run never became idle seed={case['seed']}")
         return
@@ -61,7 +62,10 @@ def run_one(case, acc):
         probes.append(t_late - 0.25)
         for i, k in enumerate(keys[1:]):
             sends.append({"at": t_late + 0.125 * i, "pay": {"key": k}})
-    scn = {"spec": case["spec"], "idle_timeout": I, "sends": sends, "probes": probes, "store": case["store"], "end": 200.0}
+    scn = {"spec": case["spec"], "idle_timeout": I, "sends": sends, "probes": probes, "store": case["store"], "end": 200.0,
+           "store_latency": case.get("store_latency")}
+    if case.get("store_latency"):
+        acc.hit("slow_store")
     obs, cs = ic.run_scenario(scn)
     acc.case()
     acc.hit("scenario")
